@@ -23,7 +23,7 @@ import wbgen
 from wbgen import a1, col_letters, sheet_ref
 
 NAME = 'parsersim'
-FAULT_PROBES = ('env_calendar_firstweekday_changed', 'env_decimal_context_changed', 'env_warnings_filter_changed')
+FAULT_PROBES = ('env_calendar_firstweekday_changed', 'env_decimal_context_changed', 'env_warnings_filter_changed', 'env_root_logger_level_changed')
 NEEDS_REF = True
 RULE = {'': 'one run = 2-4 workbooks from a seeded corpus x 1-3 clients with 3-12 facade operations each (set path / set, replace, '
             're-pass or clear the entry cell / enable, disable safety / get / write / replace a workbook on disk) x a schedule '
@@ -77,6 +77,7 @@ def _corpus_item(seed, idx=None):
     # (but not the tokenizer) treats as line ends, non-ASCII, quotes
     odd = r.choice(['a\u2028b', 'n\u0085l', 'p\u2029q', 'é✓', 'tab\there'])
     fs = ['=A1+A2', '=SUM(A1:A%d)' % rows0, '=IF(A1>A2,"x",B1)', '=%sA1+1' % other, '=SUM(%sA1:A2)*2' % other, '=IF(A1>0,"%s","n")' % odd, '=B1&"%s"' % odd,
+          '=A1*%s' % r.choice(['1.0725', '3.14159265358979', '100.125', '2.5e-3']), '=A2+0.1',
           '=VLOOKUP(A1,A1:B%d,2,FALSE())' % rows0, '=A1&"k"&B1', '=AVERAGE(A:A)', '=COUNTIFS(A1:A%d,">2")' % rows0,
           '=ROUND(A1/3,2)', '=C1+1', '=MAX(A1:B2)']
     r.shuffle(fs)
